@@ -16,11 +16,25 @@ def _sig(ops, io, mo, k):
 
 
 def _sig_sys(seg, impl, ver, k):
+    """monitor suite: classify a failed run from the state summaries printed at the deadline"""
+    import re
     verdict = ver[k] if k < len(ver) else "<missing>"
-    net = next((l for l in seg if l.startswith("note net")), "")
-    outage = any(l.startswith("note deadline") for l in seg)
-    return {"verdict": verdict.split("-")[0], "line": (seg[k] if k < len(seg) else "").split(" ")[0],
-            "hit_deadline": outage}
+    kind = "none"
+    if any(l.startswith("note deadline") for l in seg):
+        kind = "stalled"
+        for l in seg:
+            if not l.startswith("note state"):
+                continue
+            m = re.search(r"state=(\d+)_sender\{ackNo=(\d+)_frameNo=\d+_frames=(\d+)_first=(\d+)", l)
+            if not m:
+                continue
+            st, ack, frames, first = (int(x) for x in m.groups())
+            if frames > 0 and first != ack % (1 << 32):
+                kind = "unacked-frame-discarded"          # F10: frames no longer line up with ackNo
+                break
+            if frames > 0 and st == 7:
+                kind = "tube-closed-with-unacked-data"    # lastAck timer gave up
+    return {"verdict": verdict.split("-")[0], "line": (seg[k] if k < len(seg) else "").split(" ")[0], "kind": kind}
 
 
 CFG = PropCfg(
